@@ -400,7 +400,38 @@ def _sym(t):
     return {ast.Lt: "<", ast.LtE: "<=", ast.Gt: ">", ast.GtE: ">="}.get(t, "?")
 
 
+def r3_algebra_and_settings(repo: Repo, rep):
+    R = rep.rule("R-C15-3", "sampler operators (*, +, append) combine their operands as they are - no static wrapper is introduced behind the user's back; the adaptive "
+                 "samplers keep their ratio as the value it was given", floor=4,
+                 why="a product wrapped by make_static() keeps its first set for ever, whatever resample intervals the factors carry; a ratio rounded to float32 moves the threshold for float64 losses")
+    ps = repo.cls("problem.samplers.sampler_base.PointSampler")
+    for name, want in (("__mul__", "ProductSampler"), ("__add__", "ConcatSampler"), ("append", "AppendSampler")):
+        fi = ps.methods.get(name)
+        if fi is None:
+            continue
+        rep.saw(fi)
+        for p in paths(fi.node):
+            if p.ret is RAISE or p.ret is None:
+                continue
+            r = p.ret
+            ok = isinstance(r, ast.Call) and attr_chain(r.func) == want and [dump(a) for a in r.args] == ["self", fi.params[1]] and not r.keywords
+            rep.check(R, ok, fi.site(p.ret_node), fi.fq, f"returns {want}(self, {fi.params[1]})", dump(r)[:80], f"{name} returns {dump(r)[:60]}")
+    for cname in ("AdaptiveThresholdRejectionSampler", "AdaptiveRandomRejectionSampler"):
+        ci = repo.cls(f"problem.samplers.random_samplers.{cname}")
+        init = ci.methods.get("__init__")
+        if init is None or "resample_ratio" not in init.params:
+            continue
+        rep.saw(init)
+        for p in paths(init.node, expand_self=False):
+            if p.ret is RAISE:
+                continue
+            v = p.attrs.get("self.resample_ratio")
+            rep.check(R, v is not None and dump(v) == "resample_ratio", init.site(), init.fq, "self.resample_ratio = resample_ratio (unchanged)", dump(v)[:80], f"ratio stored as {dump(v)[:60]}")
+            break
+
+
 def run(repo: Repo, rep):
+    r3_algebra_and_settings(repo, rep)
     r1_static(repo, rep)
     r1b_no_cache(repo, rep)
     r2_adaptive(repo, rep)
